@@ -303,12 +303,20 @@ def judge_c01(mb, run, result):
         return [Violation('final-construct:all-bound-rejected', str(fc))]
     wopen = mc_window_open_seq(h)
     mci = mb.mc
+    wclose = None
+    if mci:
+        rel = [c['seq'] for c in h.calls.values() if c['side'] == 'o' and c['ev'] == mci['release']]
+        wclose = min(rel) if rel else None
 
     def dont_care(c):
+        # out-events of a multi-client port are judged by C01 only inside the single client's claim window
         if not mci or c['side'] != 'i':
             return False
         e = mb.events[c['ev']]
-        return e['port'] == mci['port'] and e['dir'] == 'out' and (wopen is None or c['seq'] < wopen)
+        if not (e['port'] == mci['port'] and e['dir'] == 'out'):
+            return False
+        end = c['ret']['seq'] if c['ret'] else 10 ** 12
+        return wopen is None or c['seq'] < wopen or (wclose is not None and end > wclose)
 
     vs, _ = routing(h, dont_care)
     return client_registration(h, run) + vs
